@@ -29,6 +29,7 @@ class StrLang:
         self._groups = {}
         self._dfa = {}
         self.field_domain = {}     # attribute name -> finite set of non-None string values (named field invariants)
+        self.term_language = {}    # explicit languages for opaque terms (e.g. the result of a modelled printer)
 
     # ------------------------------------------------------------------ patterns
     def pattern_groups(self, patref):
@@ -78,6 +79,19 @@ class StrLang:
             if isinstance(s, (set, frozenset, tuple, list, dict)) and all(isinstance(x, str) for x in s):
                 fs = RL.finite(set(s))
                 d = d.intersect(fs) if val else d.minus(fs)
+        # membership of a single character in a string constant:  x[i] in "abc"
+        if isinstance(v, Unk) and self.eng.origin.get(v.term, (None,))[0] == "item":
+            kv = vkey(v)
+            for k, val in st.atoms.items():
+                if k[0] == "in" and k[1] == kv and isinstance(k[2], tuple) and k[2][0] == "con":
+                    try:
+                        import ast as _ast
+                        chars = _ast.literal_eval(k[2][1])
+                    except Exception:
+                        continue
+                    if isinstance(chars, str):
+                        fs = RL.finite(set(chars))
+                        d = d.intersect(fs) if val else d.minus(fs)
         e = self.eq_const(v, st, "")
         if e is True:
             d = d.intersect(RL.lit(""))
@@ -112,6 +126,8 @@ class StrLang:
 
     def term_lang(self, v, st):
         t = v.term
+        if t in self.term_language:
+            return self.term_language[t]
         o = self.eng.origin.get(t)
         if o is None and isinstance(t, tuple) and len(t) == 4 and t[0] == "attr" and t[2] in self.field_domain:
             return RL.finite(set(self.field_domain[t[2]]))
